@@ -5,7 +5,7 @@ import sys
 from pathlib import Path
 
 from vp.core import SPEC, TLA_CP, WORK
-from vp.extract import write_tables
+from vp.extract import write_tables, write_typed_tables
 
 
 def main():
@@ -16,6 +16,7 @@ def main():
     for f in SPEC.glob("*.tla"):
         shutil.copy(f, d / f.name)
     write_tables(d / "MC_Tables.tla")
+    write_typed_tables(d / "MachineIndTables.tla")
     bad = 0
     for f in sorted(d.glob("*.tla")):
         p = subprocess.run(["java", "-cp", TLA_CP, "tla2sany.SANY", f.name], cwd=d, capture_output=True, text=True)
